@@ -10,6 +10,10 @@
      precedes e1 e2 log   every occurrence of e2 in log has an occurrence of e1 before it
      start_list inverse c starts   the given start set, or inputs (inverse) / outputs when None
      starts_exist         every start label names a gate (Python raises GateDoesntExistError otherwise) *)
+(* top_sort, _traverse_circuit, dfs, bfs and check_circuit_has_no_cycles are regenerated from the source by translator T10 and proved equal to the
+   model these theorems are about (Properties/C02.v C02_algorithms_regenerated, C02_algorithms_regenerated_2): keep those proofs in this
+   property's cone *)
+Require Cirbo.Proofs.CircuitAlgosGen Cirbo.Proofs.CircuitAlgosGen2 Cirbo.Proofs.CircuitAlgosGen3 Cirbo.Proofs.CircuitAlgosGenSum.
 Require Import Cirbo.Model.Base Cirbo.Model.Gate Cirbo.Model.Circuit Cirbo.Model.Traverse Cirbo.Model.WF.
 Require Import Cirbo.Proofs.TopSortWF Cirbo.Proofs.TraverseStep Cirbo.Proofs.TraverseInv
                Cirbo.Proofs.TraverseSpec Cirbo.Proofs.CycleCheck Cirbo.Proofs.TraverseFinal
